@@ -82,7 +82,7 @@ Theorem C04_port_pointer_and_loc : forall cb tid m obj0 old st i name sub pe,
   loc st = Some old ->
   step_loc cb tid m obj0 old st (i, name, sub, pe) =
   restore old (set_obj (cb i m
-    {| loc := Some (old ++ (if mem 35 name then firstn (length m - length pe) m else upto_colon name));
+    {| loc := Some (old ++ (if is_pattern name then firstn (length m - length pe) m else upto_colon name));
        matches := if sub then matches st else matches st + 1;
        obj := obj st; dport := Some (tid, i); log := log st |}) obj0).
 Proof. exact callback_sees. Qed.
@@ -284,12 +284,12 @@ Theorem C04_no_error : forall t m args o,
   (root_ok t m -> ~ In EvError (log (dispatch t m args true o))).
 Proof. exact tree_no_error. Qed.
 
-(* tables with a '#' name (or a multi-component literal name) are never
+(* tables with a '#' or '{' name (or a multi-component literal name) are never
    hashed; an unhashed table is served by the same scan with and without
    buffer, whatever its names are, followed in both runs by the default
    handler iff there is one and no port matched (after_scan) *)
 Theorem C04_unhashed_tables : forall T,
-  (exists p, In p (t_ports T) /\ (mem 35 (fst p) = true \/ inner_slash (fst p) = true)) ->
+  (exists p, In p (t_ports T) /\ (is_pattern (fst p) = true \/ inner_slash (fst p) = true)) ->
   tables_of T = None.
 Proof. exact unhashed_tables. Qed.
 
@@ -307,9 +307,11 @@ Proof. exact unhashed_same_calls. Qed.
 (* the recursion contract (SNIP of the rRecur*Cb callbacks after the commit
    "fix: the recursion callbacks ... skipped one component") for a sub-tree
    name of any number of components: the table below receives exactly what
-   follows the text the name matched; that text is what went into loc *)
+   follows the text the name matched; that text is what went into loc.
+   Names with alternatives included ("{on,off}/", "a#2{x,y}/"): alts_plain
+   asks only that an alternative holds no '/' and no ':' *)
 Theorem C04_snip_strips_matched_name : forall p m pe,
-  wf_pat p -> no_alt p -> subtree p = true -> path_spec p m pe ->
+  wf_pat p -> alts_plain p -> subtree p = true -> path_spec p m pe ->
   snipk (render p) m = pe /\ m = app_of (render p) m pe ++ pe.
 Proof. exact snip_strips_matched_name. Qed.
 
